@@ -94,6 +94,8 @@ func (b *Batch) Put(key []byte, value []byte) error {
 		b.cachedDataSize += newSize
 	} else {
 		// 如果缓存命中则直接修改缓存
+		// 暂存记录此前可能已被 Delete 标记为墓碑值
+		logRecord.Type = datafile.LogRecordNormal
 		logRecord.Key = key
 		logRecord.Value = value
 		b.cachedDataSize += newSize - oldSize
